@@ -28,12 +28,11 @@ theorem fifo_exactly_once (fails : Nat → Bool) (prog : Nat → List Nat) (cycl
     tagged s.consumed 0 = s.attempted ++ held s ∧
     msgsOf s.puts = s.attempted.map (·.1) ++ (held s).map (·.1) ++ msgsOf s.queue := by
   intro s
-  have hi := inv_run fails prog cycles sched
+  have hi : Writer.Inv fails s := inv_run fails prog cycles sched
+  clear_value s
   refine ⟨hi.fifo, hi.tag, ?_⟩
   have h1 : msgsOf s.puts = msgsOf s.consumed ++ msgsOf s.queue := by
-    have := hi.fifo
-    show msgsOf s.puts = _
-    rw [this, msgsOf_append]
+    rw [hi.fifo, msgsOf_append]
   have h2 : msgsOf s.consumed = (s.attempted ++ held s).map (·.1) := by
     rw [← hi.tag, tagged_fst]
   rw [h1, h2, List.map_append]
@@ -46,8 +45,10 @@ theorem stop_drains (fails : Nat → Bool) (prog : Nat → List Nat) (cycles : N
     let s := run fails (init prog cycles) sched
     s.joinDone = true →
       ∃ c, s.puts = c ++ [.stop] ++ s.queue ∧ s.attempted = tagged c 0 ∧ stops c + 1 = s.cycle ∧ held s = [] := by
-  intro s hj
-  have hi := inv_run fails prog cycles sched
+  intro s
+  have hi : Writer.Inv fails s := inv_run fails prog cycles sched
+  clear_value s
+  intro hj
   have hr := hi.jd hj
   have hc := hi.cyc
   have ht := hi.tag
@@ -77,7 +78,9 @@ theorem dest_failure_loses_one (fails : Nat → Bool) (prog : Nat → List Nat) 
       ∃ s', step fails s (.reader k) = some s' ∧ s'.reader = .atGet ∧ s'.queue = s.queue ∧
         s'.attempted = s.attempted ++ [(m, k)] := by
   intro s
-  refine ⟨(inv_run fails prog cycles sched).wr, ?_⟩
+  have hi : Writer.Inv fails s := inv_run fails prog cycles sched
+  clear_value s
+  refine ⟨hi.wr, ?_⟩
   intro m k hr hk
   simp only [step, hk, ↓reduceIte, hr]
   exact ⟨_, rfl, rfl, rfl, rfl⟩
@@ -120,7 +123,8 @@ theorem single_reader_thread (fails : Nat → Bool) (prog : Nat → List Nat) (c
     s.attempted ++ held s = tagged s.consumed 0 ∧
     List.Pairwise (fun a b => a.2 ≤ b.2) s.attempted := by
   intro s
-  have hi := inv_run fails prog cycles sched
+  have hi : Writer.Inv fails s := inv_run fails prog cycles sched
+  clear_value s
   refine ⟨?_, hi.tag.symm, ?_⟩
   · intro t s' hs hne
     cases t with
@@ -175,13 +179,16 @@ def demoProg : Nat → List Nat
   | 1 => [4]
   | _ => []
 def demoFails (m : Nat) : Bool := m == 2
-/-- round-robin over all threads; picks of blocked / finished threads stutter -/
+/-- 1, 2, 4 are offered before the service starts, 3 after the first STOP; then round-robin over all
+threads (picks of blocked / finished threads stutter) -/
 def demoSched : List Tid :=
+  [.prod 0, .prod 0, .prod 1] ++ List.replicate 9 Tid.ctl ++ [.prod 0] ++
   (List.replicate 24 [Tid.ctl, .prod 0, .reader 0, .prod 1, .joiner 0, .reader 1, .joiner 1]).flatten
 
 example : (run demoFails (init demoProg 2) demoSched).ops = [] ∧ (run demoFails (init demoProg 2) demoSched).cyclesLeft = 0 := by decide
 example : (run demoFails (init demoProg 2) demoSched).joinDone = true := by decide
-example : (run demoFails (init demoProg 2) demoSched).attempted = [(1, 0), (4, 0), (2, 0), (3, 0)] := by decide
-example : (run demoFails (init demoProg 2) demoSched).written = [(1, 0), (4, 0), (3, 0)] := by decide
+example : (run demoFails (init demoProg 2) demoSched).attempted = [(1, 0), (2, 0), (4, 0), (3, 1)] := by decide
+example : (run demoFails (init demoProg 2) demoSched).written = [(1, 0), (4, 0), (3, 1)] := by decide
+example : (run demoFails (init demoProg 2) demoSched).puts = [.msg 1, .msg 2, .msg 4, .stop, .msg 3, .stop] := by decide
 
 end Eliot.C19
